@@ -18,7 +18,7 @@ func (g *Gen) addSubOp() string {
 // x = C * 10^e with a full coefficient; y = +-t * 10^(e-k): guard digit and sticky chosen
 func (g *Gen) addTie() {
 	c := g.fullCoef()
-	k := 1 + g.r.Intn(40)
+	k := 1 + g.r.Intn(46)
 	if g.r.Intn(8) == 0 {
 		k = gapAtoms[g.r.Intn(len(gapAtoms))]
 		if k == 0 {
